@@ -444,6 +444,16 @@ def _ram(case, ctx):
             ctx.check("load==stored", sorted((p.strategy_name, p.dataset_name) for p in loaded) == sorted((k[0], k[1]) for k in keys if k[2] == f and k[3] == part)
                       and all(p is res.results["%s_%s_%s_%d" % (p.strategy_name, p.dataset_name, part, f)] for p in loaded),
                       "load:ram:not-every-record-enumerated", "in-memory load_predictions does not enumerate every stored record")
+    # a second in-memory store in the same process (another configuration, same strategy / data set names): it holds exactly its own records,
+    # and the first store still holds exactly what its run produced
+    first_ids = {k: id(v) for k, v in res.results.items()}
+    cfg2 = dict(cfg, cv="single" if cfg["cv"] != "single" else "kfold3", pot=not cfg["pot"])
+    res2, crashed2, _, _ = _run(cfg2, case["dseed"] + 1, None)
+    exp2 = sorted("%s_%s_%s_%d" % (s_, d_, p_, f_) for s_, d_, f_, p_ in _expected_keys(cfg2, cfg2["pot"]))
+    ctx.check("exactly-once", sorted(res2.results.keys()) == exp2 and not crashed2, "store:ram:second-store-holds-foreign-records",
+              "a second in-memory store of the same process does not hold exactly the records of its own run", got=sorted(res2.results.keys())[:6], expected=exp2[:6])
+    ctx.check("load==stored", sorted(res.results.keys()) == exp and all(id(res.results[k]) == first_ids[k] for k in exp if k in res.results), "store:ram:first-store-changed-by-a-later-run",
+              "the records of an in-memory store changed when another store was filled", got=sorted(res.results.keys())[:6], expected=exp[:6])
     ctx.check("fresh-clone", all(e[3] == 1 for e in log if e[1] == "fit"), "run:estimator-instance-fitted-more-than-once", "estimator instance reused across folds")
     for m in ("resume.untouched", "resume.no-needless-work", "resume.completes", "resume.final==uninterrupted", "idempotent", "overwrite.recomputes-all"):
         ctx.seen(m, 0)
